@@ -57,7 +57,24 @@ def exotic_name(ch, long_ok=True):
         return bytes(ch.below(255) + 1 for _ in range(1 + ch.below(12)))
     if long_ok and k == 8:
         return ch.pick((b'L', b'\xc3\xa9', b'ab_', b'-')) * ch.pick((100, 1000, 4096, 10000))
+    if long_ok and ch.below(2):
+        return boundary_name(ch)
     return b'n%d' % ch.below(1000)
+
+
+def boundary_name(ch):
+    """a name whose length lies within a few bytes of a size a fixed buffer is likely to have (16 ... 4096), made of plain letters
+    with one to three bytes that a tool would escape, expand or cut (control characters, quotes, backslash, '%', bytes >= 0x80)
+    placed mostly among the last bytes before such a size"""
+    size = ch.pick((16, 32, 64, 64, 128, 256, 256, 512, 1024, 4096))
+    ln = max(1, size - 8 + ch.below(17))
+    n = bytearray(ch.pick((b'A', b'a', b'_', b'z')) * ln)
+    for _ in range(1 + ch.below(3)):
+        sp = ch.pick((0x1b, 0x01, 0x0a, 0x0d, 0x09, 0x7f, 0x22, 0x5c, 0x25, 0x27, 0x80, 0xff, 0xc3, 0x20, 0x3f))
+        pos = (size - 8 + ch.below(10)) if ch.below(4) else ch.below(ln)
+        if 0 <= pos < ln:
+            n[pos] = sp
+    return bytes(n)
 
 
 def names_module(ch):
@@ -103,6 +120,24 @@ def names_module(ch):
         same = exotic_name(ch)
         m.func_names = {i: same for i in range(nimp + nf)}                              # duplicates, imports named too
     add_name_subsections(ch, m, nimp + nf)
+    # custom sections (which a translator skips, and may mention in a diagnostic) under exotic names, anywhere in the module
+    for _ in range(ch.below(3)):
+        cn = exotic_name(ch)
+        if cn != b'name':
+            m.customs.append((ch.below(12), cn, bytes(ch.below(256) for _ in range(ch.below(8)))))
+    # exports of kinds the translator has no use for (globals, tables: it may warn about them), exotic names again
+    if ch.below(3) == 0:
+        m.globals.append((I32, bool(ch.below(2)), ('i32.const', ch.below(100))))
+        gn = exotic_name(ch) + b'G'
+        if gn not in used_exp and b'\0' not in gn:
+            used_exp.add(gn)
+            m.exports.insert(ch.below(len(m.exports) + 1), (gn, 'global', sum(1 for im in m.imports if im[2] == 'global')))
+    if ch.below(4) == 0 and m.table is None:
+        m.table = (1 + ch.below(4), None)
+        tn = exotic_name(ch) + b'T'
+        if tn not in used_exp and b'\0' not in tn:
+            used_exp.add(tn)
+            m.exports.insert(ch.below(len(m.exports) + 1), (tn, 'table', 0))
     if ch.below(5) == 0:
         # a custom section that is CALLED "name" but whose content is not a well-formed name section (or refers to functions that do
         # not exist): errors in the content of a custom section do not invalidate a module
@@ -146,9 +181,32 @@ def sweep_module(ch):
     m = Module()
     T = m.type_index
     t0 = T((I32,), (I32,))
-    kind = ch.below(5)
+    kind = ch.below(6)
     lo = ch.pick((0, 0, 0, 64, 128, 192, 224, 480, 992, 1000, 2016, 4064, 8160))
     n = 130 if lo == 0 else 72
+    if kind == 5:
+        # position sweep: names of every kind (custom sections, imports, exports of functions / globals / tables, name-section
+        # entries) in which ONE byte that a tool escapes or expands travels through the window in front of a buffer-like size
+        size = ch.pick((16, 32, 64, 64, 128, 256, 512, 1024))
+        sp = ch.pick((0x1b, 0x01, 0x0a, 0x7f, 0x22, 0x5c, 0x25, 0xff, 0xc3))
+        fill = ch.pick((0x41, 0x61, 0x5f))
+        tail = ch.pick((b'', b't', b'tail', b'[2Jtail'))
+        m.globals.append((I32, False, ('i32.const', 1)))
+        m.table = (1, None)
+        m.func_names = {}
+        for j, pos in enumerate(range(max(0, size - 12), size + 4)):
+            nm = bytes([fill]) * pos + bytes([sp]) + tail
+            m.customs.append((ch.below(12), nm + b'c', b'\x00'))
+            m.imports.append((b'env' if j % 2 else nm + b'm', nm + b'i', 'func', t0))
+        ni = len(m.imports)
+        for j, pos in enumerate(range(max(0, size - 12), size + 4)):
+            nm = bytes([fill]) * pos + bytes([sp]) + tail
+            m.funcs.append(Func(t0, [], [('local.get', 0), ('call', j)]))
+            m.exports.append((nm + b'e', 'func', ni + j))
+            m.exports.append((nm + b'g', 'global', 0))
+            m.exports.append((nm + b't', 'table', 0))
+            m.func_names[ni + j] = nm if j % 3 else bytes([fill]) * (size - 6) + bytes([sp]) + tail     # some duplicates
+        return m
     if kind == 0:
         for c in range(lo, lo + n):
             labels = [(i + c) % 3 for i in range(c)]
